@@ -8,6 +8,6 @@ require (
 	pgregory.net/rapid v1.3.0
 )
 
-require github.com/berquerant/ybase v0.7.0 // indirect
+require github.com/berquerant/ybase v0.7.0
 
 replace github.com/berquerant/crd => /repo
